@@ -7,7 +7,7 @@ reported p-value (history entries and overall value).  IID (N = inf): every sequ
 k-point null law, with its probability.  The Lean driver does the same enumeration on the model.
 Oracle: for every alpha equal to an attained value (< 1) and for a grid, P(min p <= alpha) <= alpha.
 """
-import itertools, math
+import itertools, json, math
 from fractions import Fraction as F
 import numpy as np
 
@@ -123,6 +123,37 @@ def gen(rng, n, tier):
             init["N"] = N
             yield {"kind": "finite", "init": init, "pop": [S(v) for v in gen_pop(rng, N, u, t)]}
         k += 1
+
+
+def search(rng, dis_cases, tier):
+    """guided failing-input search (used only when the correspondence or a proof is broken): the configurations on
+    which model and code disagree, re-run on LARGER two-valued boundary-null populations (N = 12..24, one to three
+    outliers, null mean = population mean), where an excess of a few per cent of alpha is visible in the exact risk.
+    The model is not consulted (it cannot be: the code no longer matches it); the oracle alone decides."""
+    seen = []
+    for c in dis_cases:
+        init = c["init"]
+        key = json.dumps(init, sort_keys=True, default=str)
+        if key in seen or c.get("kind") != "finite":
+            continue
+        seen.append(key)
+        if len(seen) > 4:
+            break
+        u = F(init["u"])
+        for N, k in ((12, 2), (16, 2), (20, 3), (24, 3)):
+            for a, b in ((u / 2, F(0)), (u / 4, F(0)), (u / 2, u), (u * F(3, 4), F(0))):
+                pop = [a] * (N - k) + [b] * k
+                mean = sum(pop) / N
+                if not (0 < mean < u):
+                    continue
+                i2 = json.loads(key)
+                i2["N"] = N
+                i2["t"] = S(mean)
+                kw = dict(i2.get("kw") or {})
+                if kw.get("eta") is not None and not (mean < F(kw["eta"]) <= u):
+                    kw["eta"] = S((mean + u) / 2)
+                i2["kw"] = kw
+                yield {"kind": "finite", "init": i2, "pop": [S(v) for v in sorted(pop)]}
 
 
 def run_seq(init, seq):
